@@ -188,4 +188,178 @@ theorem validTerm_encode (v : I64) (s : Nat) (hs : s ≤ 63) : validTerm (encode
   have h1 : ¬ (32 + s < 32 ∨ 32 + s > 32 + 63) := by omega
   simp [h1]
 
+/-! ## order -/
+
+theorem digit_toNat (sb : I64) (m : Nat) :
+    (((sb >>> m) &&& 0x7f#64).setWidth 8).toNat = sb.toNat / 2 ^ m % 128 := by
+  simp only [BitVec.toNat_setWidth, BitVec.toNat_and, BitVec.toNat_ushiftRight, Nat.shiftRight_eq_div_pow,
+    BitVec.toNat_ofNat]
+  have : (127 % 2 ^ 64) = 2 ^ 7 - 1 := by decide
+  rw [this, Nat.and_two_pow_sub_one_eq_mod]
+  omega
+
+theorem lex_step (P h l h' l' : Nat) (hl : l < P) (hl' : l' < P) :
+    (h * P + l < h' * P + l') ↔ (h < h' ∨ (h = h' ∧ l < l')) := by
+  constructor
+  · intro hlt
+    by_cases h1 : h < h'
+    · exact Or.inl h1
+    · by_cases h2 : h' < h
+      · have : (h' + 1) * P ≤ h * P := Nat.mul_le_mul_right P h2
+        rw [Nat.add_mul] at this
+        omega
+      · have : h = h' := by omega
+        subst this
+        exact Or.inr ⟨rfl, by omega⟩
+  · rintro (h1 | ⟨rfl, h2⟩)
+    · have : (h + 1) * P ≤ h' * P := Nat.mul_le_mul_right P h1
+      rw [Nat.add_mul] at this
+      omega
+    · omega
+
+theorem bytesLt_digits (a b : I64) (n : Nat) :
+    bytesLt (digits a n) (digits b n) = true ↔ a.toNat % 2 ^ (7 * n) < b.toNat % 2 ^ (7 * n) := by
+  induction n with
+  | zero => simp [digits, bytesLt, Nat.mod_one]
+  | succ n ih =>
+    simp only [digits, bytesLt, digit_toNat]
+    have hp : 2 ^ (7 * (n + 1)) = 2 ^ (7 * n) * 128 := by rw [Nat.mul_succ, Nat.pow_add]
+    have hP : 0 < 2 ^ (7 * n) := Nat.two_pow_pos _
+    rw [hp, Nat.mod_mul (x := a.toNat), Nat.mod_mul (x := b.toNat)]
+    generalize 2 ^ (7 * n) = P at *
+    have hla : a.toNat % P < P := Nat.mod_lt _ hP
+    have hlb : b.toNat % P < P := Nat.mod_lt _ hP
+    rw [Nat.add_comm (a.toNat % P), Nat.add_comm (b.toNat % P), Nat.mul_comm P, Nat.mul_comm P,
+      lex_step P _ _ _ _ hla hlb, ← ih]
+    generalize a.toNat / P % 128 = ha
+    generalize b.toNat / P % 128 = hb
+    by_cases h1 : ha < hb
+    · simp [h1]
+    · by_cases h2 : hb < ha
+      · have : ¬ ha = hb := by omega
+        simp [h1, h2, this]
+      · have : ha = hb := by omega
+        simp [this]
+
+
+theorem nat_xor_two_pow_63 (x : Nat) (hx : x < 2 ^ 64) :
+    x ^^^ 2 ^ 63 = if x < 2 ^ 63 then x + 2 ^ 63 else x - 2 ^ 63 := by
+  have h1 : (x ^^^ 2 ^ 63) / 2 ^ 63 = x / 2 ^ 63 ^^^ 1 := by
+    rw [Nat.xor_div_two_pow, Nat.div_self (Nat.two_pow_pos 63)]
+  have h2 : (x ^^^ 2 ^ 63) % 2 ^ 63 = x % 2 ^ 63 := by
+    rw [Nat.xor_mod_two_pow, Nat.mod_self, Nat.xor_zero]
+  have h3 : x / 2 ^ 63 = 0 ∨ x / 2 ^ 63 = 1 := by omega
+  rcases h3 with h3 | h3
+  · rw [h3] at h1
+    have : (0 ^^^ 1 : Nat) = 1 := by decide
+    rw [this] at h1
+    split <;> omega
+  · rw [h3] at h1
+    have : (1 ^^^ 1 : Nat) = 0 := by decide
+    rw [this] at h1
+    split <;> omega
+
+theorem toNat_xor_signBit (v : I64) : ((v ^^^ signBit).toNat : Int) = v.toInt + 2 ^ 63 := by
+  have hs : signBit.toNat = 2 ^ 63 := by decide
+  rw [BitVec.toNat_xor, hs, nat_xor_two_pow_63 _ v.isLt, BitVec.toInt_eq_toNat_cond]
+  have := v.isLt
+  split <;> split <;> omega
+
+/-- the unsigned shifted sign-flipped value is the arithmetic shift of the signed value, offset by 2^(63-s) -/
+theorem toNat_flip_shift (v : I64) (s : Nat) (hs : s ≤ 63) :
+    (((v ^^^ signBit) >>> s).toNat : Int) = (v.sshiftRight s).toInt + 2 ^ (63 - s) := by
+  rw [BitVec.toNat_ushiftRight, Nat.shiftRight_eq_div_pow, BitVec.toInt_sshiftRight, Int.shiftRight_eq_div_pow]
+  rw [Int.natCast_ediv, toNat_xor_signBit]
+  have : (2 : Int) ^ 63 = 2 ^ (63 - s) * ((2 ^ s : Nat) : Int) := by
+    rw [Int.natCast_pow]; show (2:Int) ^ 63 = 2 ^ (63 - s) * 2 ^ s; rw [← Int.pow_add]; congr 1; omega
+  rw [this, Int.add_mul_ediv_right]
+  exact Int.ne_of_gt (by exact_mod_cast Nat.two_pow_pos s)
+
+
+theorem shifted_lt (y : I64) (s : Nat) (hs : s ≤ 63) : (y >>> s).toNat < 2 ^ (7 * nChars s) := by
+  rw [BitVec.toNat_ushiftRight, Nat.shiftRight_eq_div_pow]
+  have h1 : y.toNat / 2 ^ s < 2 ^ (64 - s) := by
+    rw [Nat.div_lt_iff_lt_mul (Nat.two_pow_pos s), ← Nat.pow_add]
+    have : 64 - s + s = 64 := by omega
+    rw [this]; exact y.isLt
+  have h2 : 2 ^ (64 - s) ≤ 2 ^ (7 * nChars s) :=
+    Nat.pow_le_pow_right (by decide) (by have := seven_nChars s hs; omega)
+  omega
+
+theorem bytesLt_cons_same (x : Byte) (as bs : List Byte) : bytesLt (x :: as) (x :: bs) = bytesLt as bs := by
+  simp [bytesLt]
+
+
+/-- unsigned comparison of the shifted sign-flipped values = signed comparison of the arithmetic shifts -/
+theorem flip_shift_lt (a b : I64) (s : Nat) (hs : s ≤ 63) :
+    ((a ^^^ signBit) >>> s).toNat < ((b ^^^ signBit) >>> s).toNat ↔ (a.sshiftRight s).slt (b.sshiftRight s) = true := by
+  rw [BitVec.slt_iff_toInt_lt]
+  have ha := toNat_flip_shift a s hs
+  have hb := toNat_flip_shift b s hs
+  omega
+
+theorem flip_shift_eq (a b : I64) (s : Nat) (hs : s ≤ 63) :
+    ((a ^^^ signBit) >>> s) = ((b ^^^ signBit) >>> s) ↔ a.sshiftRight s = b.sshiftRight s := by
+  have ha := toNat_flip_shift a s hs
+  have hb := toNat_flip_shift b s hs
+  constructor
+  · intro h
+    apply BitVec.eq_of_toInt_eq
+    rw [h] at ha; omega
+  · intro h
+    apply BitVec.eq_of_toNat_eq
+    rw [h] at ha; omega
+
+/-- **prefix_order**: for equal shift, the byte-lexicographic order of the terms is the signed order of the
+values shifted arithmetically (at shift 0: of the values themselves) -/
+theorem encode_order (a b : I64) (s : Nat) (hs : s ≤ 63) :
+    bytesLt (encode a s) (encode b s) = true ↔ (a.sshiftRight s).slt (b.sshiftRight s) = true := by
+  rw [encode_eq, encode_eq, bytesLt_cons_same, bytesLt_digits,
+    Nat.mod_eq_of_lt (shifted_lt _ s hs), Nat.mod_eq_of_lt (shifted_lt _ s hs), flip_shift_lt a b s hs]
+
+theorem encode_order_zero (a b : I64) : bytesLt (encode a 0) (encode b 0) = true ↔ a.slt b = true := by
+  simpa using encode_order a b 0 (by omega)
+
+/-- terms of the same shift are equal exactly when the values agree above the shift -/
+theorem encode_injective_on_shifted (a b : I64) (s : Nat) (hs : s ≤ 63) :
+    encode a s = encode b s ↔ a.sshiftRight s = b.sshiftRight s := by
+  constructor
+  · intro h
+    have h1 : ¬ (a.sshiftRight s).slt (b.sshiftRight s) = true := by
+      rw [← encode_order a b s hs, h, bytesLt_irrefl]; simp
+    have h2 : ¬ (b.sshiftRight s).slt (a.sshiftRight s) = true := by
+      rw [← encode_order b a s hs, h, bytesLt_irrefl]; simp
+    rw [BitVec.slt_iff_toInt_lt] at h1 h2
+    apply BitVec.eq_of_toInt_eq
+    omega
+  · intro h
+    rw [encode_eq, encode_eq, (flip_shift_eq a b s hs).2 h]
+
+theorem encode_injective (a b : I64) : encode a 0 = encode b 0 ↔ a = b := by
+  simpa using encode_injective_on_shifted a b 0 (by omega)
+
+/-- non-strict version -/
+theorem encode_le (a b : I64) (s : Nat) (hs : s ≤ 63) :
+    bytesLe (encode a s) (encode b s) = true ↔ (a.sshiftRight s).sle (b.sshiftRight s) = true := by
+  rw [bytesLe_iff_lt_or_eq, encode_order a b s hs, encode_injective_on_shifted a b s hs,
+    BitVec.slt_iff_toInt_lt, BitVec.sle_iff_toInt_le]
+  constructor
+  · rintro (h | h)
+    · omega
+    · rw [h]; omega
+  · intro h
+    by_cases h' : (a.sshiftRight s).toInt < (b.sshiftRight s).toInt
+    · exact Or.inl h'
+    · exact Or.inr (BitVec.eq_of_toInt_eq (by omega))
+
+/-- terms of different shifts are ordered by their first byte -/
+theorem encode_order_shift (a b : I64) (s t : Nat) (hst : s < t) (ht : t ≤ 63) :
+    bytesLt (encode a s) (encode b t) = true := by
+  rw [encode_eq, encode_eq]
+  have h1 : (BitVec.ofNat 8 (0x20 + s)).toNat = 0x20 + s := by simp only [BitVec.toNat_ofNat]; omega
+  have h2 : (BitVec.ofNat 8 (0x20 + t)).toNat = 0x20 + t := by simp only [BitVec.toNat_ofNat]; omega
+  simp only [bytesLt, h1, h2]
+  have : 32 + s < 32 + t := by omega
+  simp [this]
+
 end Bluge.C10
